@@ -282,3 +282,39 @@ func VerifH_C15_stale_reader() {
 		verif.Assert(cur[j] == data[off2+h2.size+j], "the current message is intact")
 	}
 }
+
+// VerifH_C15_readmessage: the convenience call ReadMessage (NextReader + read everything)
+// on an arbitrary byte stream with an arbitrary read limit (zero and negative = unlimited):
+// never a panic, never more payload than declared or supplied, limit enforced, a stream
+// that ends inside the frame is an error together with the bytes that did arrive.
+func VerifH_C15_readmessage() {
+	data := verif.Bytes(10 + verif.Tier())
+	rd := &fakeReader{data: data, fail: -1}
+	if verif.Tier() > 0 {
+		rd.chunk = [2]int{0, 3}[verif.Choose(2)]
+	}
+	lim := verif.Int64()
+	c := NewConn(zzmodels.StubSession(), &fakeStream{rd: rd, failAt: -1}, true, 16, 0, nil, nil, nil)
+	c.SetReadLimit(lim)
+	mt, p, err := c.ReadMessage()
+	h := refParse(data, 0)
+	if err == nil {
+		verif.Assert(h.ok && mt == h.kind, "a delivered message has a complete header and its kind")
+		verif.Assert(uint64(len(p)) == h.ulen, "exactly the declared payload")
+		verif.Assert(lim <= 0 || int64(h.ulen) <= lim, "read limit enforced before delivery")
+		j := verif.Int(0, 10)
+		if j < len(p) && h.size+j < len(data) {
+			verif.Assert(p[j] == data[h.size+j], "payload bytes intact")
+		}
+	} else {
+		verif.Assert(uint64(len(p)) <= h.ulen || !h.ok, "never more than declared")
+		verif.Assert(len(p) <= len(data), "never more than supplied")
+		if err == ErrReadLimit {
+			verif.Assert(h.ok && (h.ulen >= 1<<63 || (lim > 0 && int64(h.ulen) > lim)), "limit error only for an oversized or negative declared length")
+		}
+	}
+	_, _, err2 := c.ReadMessage()
+	if err != nil {
+		verif.Assert(err2 != nil, "a failed connection stays failed")
+	}
+}
